@@ -60,7 +60,9 @@ var PDUSessionEstablishmentAcceptOptionalElementsHalfByte = []byte{
 // It returns a tuple of assigned IP for the UE and the corresponding TEID.
 func EstablishPDU(sst int32, sd string, ue *tglib.RanUeContext, conn *sctp.SCTPConn, gnb_gtp string) (net.IP, uint32, net.IP) {
 
-	var recvMsg = make([]byte, 2048)
+	// The PDU Session Resource Setup Request carries the authorized QoS rules and
+	// flow descriptions, which can make it longer than 2048 octets.
+	var recvMsg = make([]byte, 65535)
 	sNssai := models.Snssai{
 		Sst: sst,
 		Sd:  sd,
